@@ -10,6 +10,7 @@ by a queue.
 """
 
 import logging
+from collections.abc import Callable
 from dataclasses import dataclass, field
 
 from happysimulator.components.queue_policy import FIFOQueue, QueuePolicy
@@ -93,6 +94,13 @@ class Queue(Entity):
     egress: Entity = None  # The driver that will process items
     policy: QueuePolicy = None  # Queue policy (FIFO, LIFO, Priority, etc.)
 
+    # Optional veto on handing out the head item: called with the item the
+    # policy would release next; returning False keeps it queued and the poll
+    # is answered as if the queue were empty.  Lets a consumer whose capacity
+    # depends on the item (e.g. weighted concurrency) decide at the moment of
+    # dequeue instead of when the poll was issued.
+    dispatch_guard: Callable[[Event], bool] | None = field(default=None, repr=False)
+
     # Statistics
     stats_dropped: int = field(default=0, init=False)
     stats_accepted: int = field(default=0, init=False)
@@ -148,10 +156,15 @@ class Queue(Entity):
 
     def _handle_poll(self, event: QueuePollEvent) -> list[Event]:
         """Driver is asking for work."""
-        next_item = self.policy.pop()
+        head = self.policy.peek() if self.dispatch_guard is not None else None
+        if head is not None and not self.dispatch_guard(head):
+            logger.debug("[%s] Consumer cannot take the head item yet, keeping it", self.name)
+            next_item = None
+        else:
+            next_item = self.policy.pop()
         if next_item is None:
             # Always answer a poll so the requestor knows it is no longer outstanding.
-            logger.debug("[%s] Poll received but queue is empty", self.name)
+            logger.debug("[%s] Poll received but nothing to hand out", self.name)
             return [
                 QueueDeliverEvent(
                     time=self.now, target=event.requestor, payload=None, queue_entity=self
